@@ -21,3 +21,5 @@ def run(ctx):
                 [('k_usize_roundtrip', 'usize-roundtrip', 'usize <-> NumberValue'), ('k_integer_eq_exact', 'int-eq-exact', 'equality and hashing of integers is exact over all u64 / i64 (no detour through f64)')], ['json_value.rs'], timeout_s=600)
     from ..scen_print import print_numbers
     print_numbers(ctx)        # printing hands the integer to Display unchanged, in json, text and csv output
+    from ..scen_misc import sort_functions
+    sort_functions(ctx)       # sort / sort_unique keep every integer (duplicates are removed with ==, not through an ordered set keyed by f64)
